@@ -495,22 +495,16 @@ Proof.
   apply bind_ok in H as (a & _ & H). injection H as _ <-. eapply pev_shorter; eassumption.
 Qed.
 
-Lemma tbl_row_safe : forall dbg hb h t, asz_ok (h_asz h) ->
-  safe (let* (from, t1) := parse_encoded_pointer dbg (h_be h) (h_enc h) (hdr_pp hb h) t in
-        let* (to, t2) := parse_encoded_pointer dbg (h_be h) (h_enc h) (hdr_pp hb h) t1 in
-        Ok ((from, to), t2)).
-Proof.
-  intros dbg hb h t Hasz.
-  apply safe_bind; [apply pep_safe; exact Hasz|]. intros [from t1] _.
-  apply safe_bind; [apply pep_safe; exact Hasz|]. intros [to t2] _. apply safe_ok.
-Qed.
-
 Lemma tbl_next_safe : forall dbg hb h st, asz_ok (h_asz h) -> safe (tbl_next dbg hb h st).
 Proof.
   intros dbg hb h [t remain] Hasz. unfold tbl_next.
   apply safe_if; [apply safe_ok|].
-  pose proof (tbl_row_safe dbg hb h t Hasz) as [H1 H2].
-  destruct (let* (from, t1) := _ in _) as [[row t2]|e| |]; try congruence; apply safe_ok.
+  pose proof (pep_safe dbg (h_be h) (h_enc h) (hdr_pp hb h) t Hasz) as [H1 H2].
+  destruct (parse_encoded_pointer dbg (h_be h) (h_enc h) (hdr_pp hb h) t) as [[from t1]|e| |]; try congruence;
+    [|apply safe_ok].
+  pose proof (pep_safe dbg (h_be h) (h_enc h) (hdr_pp hb h) t1 Hasz) as [H3 H4].
+  destruct (parse_encoded_pointer dbg (h_be h) (h_enc h) (hdr_pp hb h) t1) as [[to t2]|e| |]; try congruence;
+    apply safe_ok.
 Qed.
 
 Lemma tbl_next_shorter : forall dbg hb h t remain row t2 remain2, asz_ok (h_asz h) ->
@@ -518,11 +512,10 @@ Lemma tbl_next_shorter : forall dbg hb h t remain row t2 remain2, asz_ok (h_asz 
 Proof.
   intros dbg hb h t remain row t2 remain2 Hasz H. unfold tbl_next in H.
   destruct (remain =? 0); [discriminate|].
-  destruct (let* (from, t1) := _ in _) as [[row0 t20]|e| |] eqn:E; try discriminate.
+  destruct (parse_encoded_pointer dbg (h_be h) (h_enc h) (hdr_pp hb h) t) as [[from t1]|e| |] eqn:E1; try discriminate.
+  destruct (parse_encoded_pointer dbg (h_be h) (h_enc h) (hdr_pp hb h) t1) as [[to t2']|e| |] eqn:E2; try discriminate.
   injection H as _ <- _.
-  apply bind_ok in E as ([from t1] & H1 & E). apply pep_shorter in H1; [|exact Hasz].
-  apply bind_ok in E as ([to t2'] & H2 & E). apply pep_shorter in H2; [|exact Hasz].
-  injection E as _ <-. lia.
+  apply pep_shorter in E1; [|exact Hasz]. apply pep_shorter in E2; [|exact Hasz]. lia.
 Qed.
 
 (* after a row error the iterator is exhausted *)
@@ -531,8 +524,10 @@ Lemma tbl_next_stops : forall dbg hb h st e st', tbl_next dbg hb h st = Ok (SErr
 Proof.
   intros dbg hb h [t remain] e st' H. unfold tbl_next in H.
   destruct (remain =? 0); [discriminate|].
-  destruct (let* (from, t1) := _ in _) as [[row0 t20]|e0| |]; try discriminate.
-  injection H as _ <-. reflexivity.
+  destruct (parse_encoded_pointer dbg (h_be h) (h_enc h) (hdr_pp hb h) t) as [[from t1]|e1| |]; try discriminate.
+  - destruct (parse_encoded_pointer dbg (h_be h) (h_enc h) (hdr_pp hb h) t1) as [[to t2']|e2| |]; try discriminate.
+    injection H as _ <-. reflexivity.
+  - injection H as _ <-. reflexivity.
 Qed.
 
 Lemma tbl_all_loop_safe : forall fuel dbg hb h t remain, asz_ok (h_asz h) ->
@@ -627,11 +622,18 @@ Proof.
   - intros b _. destruct b; auto with safe.
 Qed.
 
+Lemma tbl_nth_st_safe : forall dbg hb h st n, asz_ok (h_asz h) -> safe (tbl_nth_st dbg hb h st n).
+Proof.
+  intros dbg hb h [t remain] n Hasz. unfold tbl_nth_st.
+  destruct (tbl_field_size (h_enc h)) as [size|]; [|apply safe_ok].
+  apply safe_if; [apply safe_ok|].
+  pose proof (rd_skip_safe (n * (size * 2)) t) as [H1 H2].
+  destruct (rd_skip (n * (size * 2)) t) as [t'|e| |]; try congruence; [|apply safe_ok].
+  apply tbl_next_safe. exact Hasz.
+Qed.
+
 Lemma tbl_nth_safe_lem : forall dbg hb h n, asz_ok (h_asz h) -> safe (tbl_nth dbg hb h n).
 Proof.
   intros dbg hb h n Hasz. unfold tbl_nth.
-  destruct (tbl_field_size (h_enc h)) as [size|]; [|apply safe_err].
-  apply safe_if; [apply safe_err|].
-  apply safe_bind; [apply rd_skip_safe|]. intros t _.
-  apply safe_bind; [apply tbl_next_safe; exact Hasz|]. intros [s st] _. destruct s; auto with safe.
+  apply safe_bind; [apply tbl_nth_st_safe; exact Hasz|]. intros [s st] _. destruct s; auto with safe.
 Qed.
